@@ -5,9 +5,10 @@ import json, os, shutil, subprocess, sys, glob, time
 sys.path.insert(0, "/verif/bin")
 import seedtool
 
-RELATED = {"C01": ["C01", "C11"], "C02": ["C02", "C11", "C01"], "C06": ["C06", "C16"], "C13": ["C13", "C16"], "C03": ["C03"], "C04": ["C04"], "C05": ["C05"],
-           "C09": ["C09"], "C10": ["C10", "C18"], "C11": ["C11"], "C12": ["C12"], "C14": ["C14"], "C15": ["C15"],
-           "C16": ["C16", "C20"], "C18": ["C18"], "C19": ["C19"], "C20": ["C20"]}
+RELATED = {"C01": ["C01", "C11"], "C02": ["C02", "C11", "C01"], "C06": ["C06", "C16", "C05"], "C13": ["C13", "C16"], "C03": ["C03", "C10"], "C04": ["C04", "C01"], "C05": ["C05", "C11"],
+           "C12": ["C12", "C10"], "C14": ["C14", "C11"], "C18": ["C18", "C11"],
+           "C09": ["C09"], "C10": ["C10", "C18"], "C11": ["C11"], "C15": ["C15"],
+           "C16": ["C16", "C20"], "C19": ["C19"], "C20": ["C20"]}
 NOTES = json.load(open("/verif/seeded/notes.json")) if os.path.exists("/verif/seeded/notes.json") else {}
 
 def sh(cmd, cwd=None, timeout=3600):
@@ -21,6 +22,8 @@ def repo_clean():
 dirs = [a for a in sys.argv[1:] if not a.startswith("--")] or sorted(glob.glob("/tmp/mut/C*/[ab]"))
 for d in dirs:
     prop, var = d.split("/")[-2], d.split("/")[-1]
+    if "/mut2/" in d:
+        var = {"a": "c", "b": "d"}[var]  # second wave
     sid = prop + var
     dst = "/verif/seeded/" + sid
     if os.path.exists(os.path.join(dst, "meta.json")) and "--force" not in sys.argv:
